@@ -11,7 +11,7 @@ QUERIES = ["a", "t:b", "a*", "t:*", "\"p  q\"", "t:\"u v\"~2", "h~", "k^2.5", "t
 
 def plan(tier, seed):
     pl = Plan("C06", "exploration")
-    pl.cases = H.leaf_cases()
+    pl.cases = H.leaf_cases() + H.visit_leaf_cases()
     n = 2 if tier == "quick" else 3
 
     def leaves():
